@@ -7,9 +7,12 @@ exactly as it was (deep snapshot of vars()); an accepted one renders the assigne
 markup in it is navigable; an attribute value containing whitespace is always rendered quoted.
 """
 import random
+import re
 
 import vlib
 from props.c17 import structure
+
+NUMKEY = re.compile(r"[1-9][0-9]*$")
 
 PARSED = {  # attributes that store parse_anything(value)
     "Template": ["name"], "Wikilink": ["title", "text"], "Heading": ["title"], "Tag": ["tag", "contents", "closing_tag"],
@@ -25,7 +28,7 @@ TEXTS = ["x", "a b", "", "{{t|p}}", "[[l|m]] tail", "<b>z</b>", "''i''", " space
 INVALID = {
     "Heading.level": [0, 7, -1, "9", "x", 100], "HTMLEntity.value": ["notanentity", "x110000", "1114112", "-5", "zz", "12FFFF", "ffffffff", "FFFFFFF", "x12FFFF", "0x41", "", "1e3", "99999999"],
     "HTMLEntity.named": [True], "HTMLEntity.hexadecimal": [True], "HTMLEntity.hex_char": ["y", "", "xx", 5],
-    "Parameter.showkey": [False], "Attribute.quotes": ["x", "''", "`", None, ""], "Attribute.pad_first": ["x", " a", "\n-"],
+    "Parameter.showkey": [False, 0, None, ""], "Attribute.quotes": ["x", "''", "`", None, ""], "Attribute.pad_first": ["x", " a", "\n-"],
     "Attribute.pad_before_eq": ["x"], "Attribute.pad_after_eq": ["q "], "Tag.padding": ["x", " y "],
 }
 VALID = {
@@ -41,7 +44,7 @@ VALID = {
 
 def make_objects():
     import mwparserfromhell
-    code = mwparserfromhell.parse("{{t|a=b|c}}[[l|t]][http://x y]\n==h==\n<b a=\"c d\" e=f g>x</b>{{{n|d}}}<!--c-->&amp;&#65;&#x41;text<br/>''i''")
+    code = mwparserfromhell.parse("{{t|a=b|c|2nd=d|10px=e| 4x =f|3.5=g|01=h|2=i}}[[l|t]][http://x y]\n==h==\n<b a=\"c d\" e=f g>x</b>{{{n|d}}}<!--c-->&amp;&#65;&#x41;text<br/>''i''")
     objs = list(code.filter())
     extra = []
     for n in objs:
@@ -123,6 +126,11 @@ def one_sequence(seed):
                     return log, "%s renders %r after being assigned %r" % (log[-1], None if got is None else str(got), expect), rejected
             if "{{" in expect and got is not None and not got.filter_templates():
                 return log, "nested markup assigned through %s is not navigable" % log[-1], rejected
+        if cls == "Parameter" and attr in ("name", "showkey") and not obj.showkey and not NUMKEY.match(str(obj.name).strip()):
+            # (edits of nodes INSIDE a name are not assignments to the parameter: only these two setters are judged)
+            return log, "a parameter whose name %r is not a positive integer has its key hidden after %s" % (str(obj.name), log[-1]), rejected
+        if cls == "Parameter" and attr == "name" and obj.showkey and expect is not None and expect.strip() and expect not in str(obj):
+            return log, "the parameter does not render the name assigned by %s: %r" % (log[-1], str(obj)), rejected
         for o in objs:
             if isinstance(o, Attribute) and not attr_quote_ok(o):
                 return log, "an attribute value with whitespace is rendered without quotes after %s: %r" % (log[-1], str(o)), rejected
